@@ -257,7 +257,12 @@ func (ex *Exec) callFunc(p *Path, fn *types.Func, recv *Value, args []Value, cal
 	}
 	if fi := ex.w.Funcs[full]; fi != nil && fi.Decl.Body != nil {
 		if ex.canInline(full) {
-			return ex.inlineCall(p, fi, recv, args, pos)
+			if vals, ok := ex.tryInline(p, fi, recv, args, pos); ok {
+				return vals
+			}
+			pure := ex.bodyIsHeapPure(fi, 0)
+			ex.note("call to %s at %s abstracted (body outside the subset): results havocked, mutable heap %s", key, ex.w.pos(pos), map[bool]string{true: "kept (callee writes no modelled state)", false: "havocked"}[pure])
+			return ex.havocCall(p, fn, !pure)
 		}
 		ex.note("call to %s at %s abstracted (recursive or too deep): results havocked", key, ex.w.pos(pos))
 		return ex.havocCall(p, fn, true)
@@ -361,6 +366,42 @@ func (ex *Exec) canInline(full string) bool {
 		return false
 	}
 	return true
+}
+
+// tryInline inlines a callee; if its body leaves the accepted subset the path is restored and ok=false.
+func (ex *Exec) tryInline(p *Path, fi *FuncInfo, recv *Value, args []Value, pos token.Pos) (vals []Value, ok bool) {
+	backup := p.Clone()
+	nObl := len(ex.oblOrder)
+	oblCounts := map[string]int{}
+	for k, o := range ex.obls {
+		oblCounts[k] = len(o.Insts)
+	}
+	stackLen := len(ex.inlineStack)
+	guardLen := len(ex.guards)
+	loopOrd := ex.loopOrd
+	defer func() {
+		if r := recover(); r != nil {
+			if _, isUnsupp := r.(unsupported); !isUnsupp {
+				panic(r)
+			}
+			*p = *backup
+			// drop obligations recorded inside the failed inline
+			for _, name := range ex.oblOrder[nObl:] {
+				delete(ex.obls, name)
+			}
+			ex.oblOrder = ex.oblOrder[:nObl]
+			for k, n := range oblCounts {
+				if o := ex.obls[k]; o != nil && len(o.Insts) > n {
+					o.Insts = o.Insts[:n]
+				}
+			}
+			ex.inlineStack = ex.inlineStack[:stackLen]
+			ex.guards = ex.guards[:guardLen]
+			ex.loopOrd = loopOrd
+			vals, ok = nil, false
+		}
+	}()
+	return ex.inlineCall(p, fi, recv, args, pos), true
 }
 
 func (ex *Exec) inlineCall(p *Path, fi *FuncInfo, recv *Value, args []Value, pos token.Pos) []Value {
